@@ -7,7 +7,7 @@ stage of a two-stage run).  The REAL `Experiment.run` is executed on fresh scrip
 Result and of `Result.from_file` are compared with a plain-Python reference: the yielded rows / params under the
 statement's normalisation.  Nothing is sampled.
 """
-import os, json, math, itertools, re, traceback
+import os, json, math, itertools, re, shutil, traceback
 
 from vf.core import Check, REPO, tmpdir
 
@@ -294,7 +294,13 @@ def compare(exp: Expect, snap, completed, logged):
             for i, (w, g) in enumerate(zip(want, got)):
                 if c in allkeys and allkeys[c] in w:
                     d = diff(w[allkeys[c]], g[c])
-                    if d: out.append((f'interactions|{d}|{feat}', f'triple {t} row {i + 1} field {c!r}: evaluator yielded {w[allkeys[c]]!r}, table has {g[c]!r}'))
+                    if d and any(k2 != allkeys[c] and diff(w[k2], g[c]) is None for k2 in w):
+                        # the cell holds what the evaluator yielded under ANOTHER key of the same row
+                        orders = {tuple(map(str, r)) for r in want}
+                        d, f2 = 'value filed under another field of the same row', (
+                            'rows with equal key sets in different insertion orders' if len(orders) > 1 and len({frozenset(o) for o in orders}) == 1 else 'rows in one insertion order or ragged')
+                        out.append((f'interactions|{d}|{f2}', f'triple {t} row {i + 1} field {c!r}: evaluator yielded {w[allkeys[c]]!r}, table has {g[c]!r}'))
+                    elif d: out.append((f'interactions|{d}|{feat}', f'triple {t} row {i + 1} field {c!r}: evaluator yielded {w[allkeys[c]]!r}, table has {g[c]!r}'))
                 elif not is_none(g[c]):
                     out.append(('interactions|absent field not None|ragged rows', f'triple {t} row {i + 1} has no field {c!r}, table has {g[c]!r}'))
     return out
@@ -342,7 +348,19 @@ def logged_exception_names(lines):
 
 # ------------------------------------------------------------------ the check
 
-MODES = ('none', 'plain', 'gz', 'restored-plain', 'restored-gz')
+# result-file names (relative to a fresh per-case scratch directory): where '.gz' occurs decides, at several sites
+# of coba (DiskSink, DiskSource, Experiment.run), whether the file is treated as gzip
+FILES = {
+    'plain': ('r.log', "no '.gz'"),
+    'gz': ('r.log.gz', "'.gz' suffix"),
+    'mid': ('r.gz.bak', "'.gz' inside the base name"),
+    'dir': ('sweep.gz.d/r.log', "'.gz' in a directory name"),
+    'dirgz': ('sweep.gz.d/r.log.gz', "'.gz' in a directory name and as suffix"),
+    'upper': ('r.LOG.GZ', "upper-case '.GZ' suffix"),
+    'nodot': ('rgz.log', "'gz' without a dot"),
+}
+STD_FILES = ['plain', 'gz']          # used by every case; the names section uses all of FILES
+TYPED = ['l12', 's_a', 'f.123456789', 'd_k1', 's_uni', 'i1']      # pairwise distinct after normalisation
 
 _SCRATCH = tmpdir()          # created in the parent before the fork; removed by the parent's atexit
 
@@ -353,11 +371,13 @@ class C07(Check):
     ENGINE = 'ENUM'
     RULE = ('cases = experiment descriptions enumerated exhaustively, simplest first: (1) one triple whose evaluator yields 1..3 rows '
             'with one key from {reward,x,1,2.5} and every value tuple over the value alphabet; (2) one triple with 2 rows over 2 keys in '
-            'every presence pattern (ragged rows, an empty row) x values; (3) env/learner/evaluator params {key:value} over the same '
+            'every presence pattern (ragged rows, an empty row) x values; (2b) 2..3 rows with EQUAL key sets (2..4 keys) in every tuple of '
+            'insertion-order permutations, cell-distinct values; (3) env/learner/evaluator params {key:value} over the same '
             'alphabets, and two components with ragged params; (4) 1..4 triples over 2 envs x 2 learners x 2 evaluators in several '
             'list orders x every row-count vector over {0,1,2} (thorough {0..3}) x every non-empty stage-one failure set (quick, 4 triples: '
             'sizes 1 and 4 plus two pairs); each case runs in 5 sink modes '
-            '(no file, plain, .gz, restored plain, restored .gz). A case is non-trivial when the normalisation had something to do '
+            '(no file, plain, .gz, restored plain, restored .gz); (5) a content subset x 7 result-file names (".gz" nowhere / suffix / '
+            'inside the base name / in a directory name / both / upper case / "gz" without dot) x fresh and restored runs. A case is non-trivial when the normalisation had something to do '
             '(non-string key, absent field, top-level sequence, float needing rounding or int collapse) or >=2 triples were given')
     ASSUMPTIONS = [
         'in-process runs only (processes=1, maxchunksperchild=0); the multi-process path is C01/C08',
@@ -370,6 +390,7 @@ class C07(Check):
         'extra columns are tolerated when they are None for the triple; column order is only compared between Results of the same run (file vs. from_file)',
         'keys whose str() collide, the reserved names (ids, index, rewards, env_type, family, eval_type) and rows lists consisting only of empty rows are outside the alphabet',
         'rows of triples whose evaluator raised are not constrained; a restored run is compared with the fresh no-file run on content and column sets only',
+        'whether a result file is gzip-compressed is not constrained, only that run(file), from_file(file) and the no-file run agree for every file name',
         'exceptions: the statement promises a Result, so an exception from Experiment.run / Result.from_file is a violation',
     ]
     TECHNIQUE = ('bounded-exhaustive enumeration of evaluator outputs and params over value/key alphabets x 5 sink modes on the real '
@@ -379,7 +400,7 @@ class C07(Check):
                   'every ragged two-key presence pattern, params dictionaries over the same alphabets, and multi-triple experiments with every '
                   'row-count vector and stage-one failure set are run through the real Experiment.run with no file, a plain file, a .gz file and '
                   'restored plain/.gz files; all four tables of each returned Result and of Result.from_file are compared with the reference.')
-    LEVEL_NOTE = ('small-scope: <=3 rows, <=2 keys per row, <=4 triples, values from the listed alphabet; single process only; '
+    LEVEL_NOTE = ('small-scope: <=3 rows, <=2 keys per row (<=4 for permuted equal key sets), <=4 triples, values from the listed alphabet; single process only; '
                   'nested sequence types, actual rounding and reward-object identity are deliberately unconstrained')
     MIN_NONTRIVIAL = {'quick': 5000, 'thorough': 100000}
     CASE_TIMEOUT = 60
@@ -390,6 +411,22 @@ class C07(Check):
     def single(rows=None, envp=(), lrnp=(), valp=(), fail1=(0,)):
         return {'envs': [list(map(list, envp))], 'lrns': [list(map(list, lrnp))], 'vals': [list(map(list, valp))],
                 'triples': [[0, 0, 0]], 'rows': [rows if rows is not None else [[['reward', 'i1']]]], 'fail1': list(fail1)}
+
+    @staticmethod
+    def multi_rows(ns):
+        """Distinct rows per triple: ragged across triples, and odd rows list their keys in the opposite insertion order."""
+        rows = []
+        for ti, n in enumerate(ns):
+            rs = []
+            for i in range(n):
+                r = [['reward', '#%d' % (100 * ti + 10 * i + 1)]] if ti != 3 else []      # the 4th triple never yields 'reward'
+                if ti % 2 == 1: r.append(['x', '#[%d,%d]' % (ti, i)])
+                if ti == 2 and i == 0: r.append(['k1', 's_a'])
+                if ti == 0: r.append(['k2.5', '#%d' % (7 + i)])
+                if i % 2 == 1: r.reverse()
+                rs.append(r)
+            rows.append(rs)
+        return rows
 
     def cases(self, tier):
         quick = tier == 'quick'
@@ -420,6 +457,43 @@ class C07(Check):
                     r1 = [[k, c] for k, c in ((ka, cells[0]), (kb, cells[1])) if c is not None]
                     r2 = [[k, c] for k, c in ((ka, cells[2]), (kb, cells[3])) if c is not None]
                     yield self.single([r1, r2])
+        # (2b) rows with EQUAL key sets built in DIFFERENT insertion orders: every tuple of key permutations, one per row,
+        #      with values that are distinct per cell (ints / typed), so a value filed under the wrong key is seen
+        if quick:
+            ksets = [(('x', 'reward'), (2, 3)), (('k1', 'x'), (2, 3)), (('x', 'reward', 'k1'), (2,)), (('k2.5', 'k1', 'reward'), (2,))]
+        else:
+            ksets = [(ks, (2, 3)) for n in (2, 3) for ks in itertools.combinations(K_ALL, n)] + [(tuple(K_ALL), (2,))]
+        for ks, nrows in ksets:
+            perms = list(itertools.permutations(ks))
+            for n in nrows:
+                for ps in itertools.product(perms, repeat=n):
+                    for style in ('ints', 'typed'):
+                        rows = [[[k, '#%d' % (100 * (i + 1) + ks.index(k)) if style == 'ints' else TYPED[(i + ks.index(k)) % len(TYPED)]]
+                                 for k in pm] for i, pm in enumerate(ps)]
+                        yield self.single(rows)
+        #      and two components of one kind whose params have the same keys in opposite orders
+        for comp in ('envs', 'lrns', 'vals'):
+            for ka, kb in [('x', 'k1'), ('reward', 'x')] if quick else [(a, b) for a in K_ALL for b in K_ALL if a < b]:
+                c = {'envs': [[]], 'lrns': [[]], 'vals': [[]]}
+                c[comp] = [[[ka, '#1'], [kb, 'l12']], [[kb, 's_a'], [ka, '#2']]]
+                t1 = [0, 0, 0]; t1[('envs', 'lrns', 'vals').index(comp)] = 1
+                c['triples'] = [[0, 0, 0], t1]
+                c['rows'] = [[[['reward', '#%d' % (10 * i + 1)]]] for i in range(2)]
+                c['fail1'] = [0]
+                yield c
+        # (5) result-file names: every name of FILES (where '.gz' occurs: nowhere, suffix, inside the base name, in a directory,
+        #     upper case, without dot) x fresh and restored runs, on one-row columns over V, a mixed column, permuted keys and
+        #     multi-triple experiments
+        names = list(FILES)
+        for v in V: yield dict(self.single([[['x', v]]]), files=names)
+        yield dict(self.single([[['x', 'l12']], [['x', 'i0']]]), files=names)
+        yield dict(self.single([[['x', '#1'], ['reward', '#2']], [['reward', '#3'], ['x', '#4']]]), files=names)
+        for trip, ns, fs in [([[0, 0, 0], [0, 1, 0]], (2, 1), [(0,), (1,), (0, 1)]),
+                             ([[0, 0, 0], [0, 1, 0], [1, 0, 0], [1, 1, 0]], (1, 2, 0, 2), [(0,), (3,), (1, 2), (0, 1, 2, 3)]),
+                             ([[0, 0, 1], [0, 0, 0], [1, 0, 1], [1, 0, 0]], (2, 0, 1, 1), [(1,), (0, 2), (0, 1, 2, 3)])]:
+            for f in fs:
+                yield {'envs': [[['x', 'i1']], [['k1', 'l12']]], 'lrns': [[], [['x', 's_a']]], 'vals': [[], [['k2.5', 'none']]],
+                       'triples': trip, 'rows': self.multi_rows(ns), 'fail1': list(f), 'files': names}
         # (3b) two components of one kind with (possibly ragged) one-key params
         kp = [('x', 'x'), ('x', 'k1'), ('k1', 'x'), ('reward', 'k2.5')] if quick else [(a, b) for a in K_ALL for b in K_ALL]
         for comp in ('envs', 'lrns', 'vals'):
@@ -453,17 +527,8 @@ class C07(Check):
                 if T == 4 and quick: fsets = [f for f in fsets if len(f) in (1, 4) or f in ((0, 3), (1, 2))]
                 for f in fsets:
                     if not f: continue
-                    rows = []
-                    for ti, n in enumerate(ns):
-                        rs = []
-                        for i in range(n):
-                            r = [['reward', '#%d' % (100 * ti + 10 * i + 1)]] if ti != 3 else []      # the 4th triple never yields 'reward'
-                            if ti % 2 == 1: r.append(['x', '#[%d,%d]' % (ti, i)])
-                            if ti == 2 and i == 0: r.append(['k1', 's_a'])
-                            rs.append(r)
-                        rows.append(rs)
                     yield {'envs': [[['x', 'i1']], [['k1', 'l12']]], 'lrns': [[], [['x', 's_a']]], 'vals': [[], [['k2.5', 'none']]],
-                           'triples': trip, 'rows': rows, 'fail1': list(f)}
+                           'triples': trip, 'rows': self.multi_rows(ns), 'fail1': list(f)}
         if quick: return
         # thorough: three rows, one key, all of V^3
         for k in K_ALL:
@@ -482,9 +547,9 @@ class C07(Check):
         CobaContext.cacher = MemoryCacher()
         self._n = 0
 
-    def _path(self, ext):
+    def _casedir(self):
         self._n += 1
-        return os.path.join(_SCRATCH, f'{os.getpid()}-{self._n}{ext}')
+        return os.path.join(_SCRATCH, f'{os.getpid()}-{self._n}')
 
     def _run(self, case, path, fail_idx, log):
         """One real Experiment.run on fresh components; returns ('ok', snapshot) or ('exc', exception)."""
@@ -529,16 +594,21 @@ class C07(Check):
                 note(mode, key, f'[{phase}] {what}')
             return st[1]
 
+        files = list(case.get('files') or STD_FILES)
+        modes = ['none'] + [f'{stage}:{f}' for stage in ('fresh', 'restored') for f in files]
+        casedir = self._casedir()
         snaps = {}
-        for mode in MODES:
+        for mode in modes:
             log = []
             if mode == 'none':
                 snaps[mode] = check(mode, 'Experiment.run()', self._run(case, None, (), log), allt, log)
                 continue
-            path = self._path('.log.gz' if mode.endswith('gz') else '.log')
+            stage, ftok = mode.split(':')
+            path = os.path.join(casedir, stage, FILES[ftok][0])
+            os.makedirs(os.path.dirname(path), exist_ok=True)
             try:
                 completed = allt
-                if mode.startswith('restored'):
+                if stage == 'restored':
                     done1 = [t for i, t in enumerate(trip) if i not in fail1]
                     s1 = self._run(case, path, fail1, log)
                     log1 = [l for l in log if 'EvalFailure' not in str(l)]
@@ -554,24 +624,29 @@ class C07(Check):
                     d = identical(r, f)
                     if d: note(mode, f'identity|Result(run with file) != Result.from_file(file)|{d[0]}', d[1])
                 if r is not None and snaps.get('none') is not None:
-                    d = identical(snaps['none'], r, strict_columns=not mode.startswith('restored'))
+                    d = identical(snaps['none'], r, strict_columns=stage != 'restored')
                     if d: note(mode, f'identity|Result(no file) != Result(run with file)|{d[0]}', d[1])
             finally:
-                if os.path.exists(path): os.unlink(path)
+                shutil.rmtree(casedir, ignore_errors=True)
 
         base = found.get('none', {})
         for key, what in base.items():
             acc.violation(key, what)
         # failures that the no-file run does not show are keyed with the sink modes that show them
         extra = {}
-        for mode in MODES[1:]:
+        for mode in modes[1:]:
             for key, what in found.get(mode, {}).items():
                 if key not in base: extra.setdefault(key, []).append((mode, what))
         for key, mw in extra.items():
-            ms = tuple(m for m, _ in mw)
-            where = {MODES[1:]: 'any result file', ('gz', 'restored-gz'): '.gz files', ('plain', 'restored-plain'): 'plain files',
-                     ('restored-plain', 'restored-gz'): 'restored runs'}.get(ms, '+'.join(ms))
-            acc.violation(f'{key} [only with: {where}]', f'(mode {mw[0][0]}) {mw[0][1]}')
+            ms = [m.split(':') for m, _ in mw]
+            stages = sorted({st for st, _ in ms})
+            fresh_f = {f for st, f in ms if st == 'fresh'}; rest_f = {f for st, f in ms if st == 'restored'}
+            if fresh_f == set(files) == rest_f: where = 'any result file'
+            elif not fresh_f and rest_f == set(files): where = 'restored runs'
+            else:   # the name classes that show it (in FILES order), and the kind of run
+                classes = [FILES[f][1] for f in FILES if f in fresh_f | rest_f]
+                where = 'file names with ' + ' / '.join(classes) + '; ' + '+'.join(stages) + ' runs'
+            acc.violation(f'{key} [only with: {where}]', f'(mode {mw[0][0]}, file {FILES[mw[0][0].split(":")[1]][0]}) {mw[0][1]}')
         # observable outcome signature: verdicts + shape/types of what was read back without a file
         s0 = snaps.get('none')
         shape = None
@@ -579,8 +654,8 @@ class C07(Check):
             cols, rows = s0[0]['interactions']
             shape = (len(rows), tuple(sorted(set(cols) - set(ID_COLS))), tuple(sorted({vclass(r[c]) for r in rows for c in cols if c not in ID_COLS})))
         acc.outcome((tuple(sorted(k for m in found.values() for k in m)), tuple(sig), shape))
-        acc.count('experiment_runs', 1 + 2 + 2 * 2)
-        acc.count('results_compared', 1 + 2 * 2 + 2 * 3)
+        acc.count('experiment_runs', 1 + 3 * len(files))
+        acc.count('results_compared', 1 + 5 * len(files))
 
 
 CHECK = C07()
